@@ -253,6 +253,12 @@ func (s *Session) resume(o *Config) bool {
 	}
 	var packet stanza.Packet
 	packet, s.err = stanza.NextPacket(s.transport.GetDecoder())
+	if s.err != nil && connectionLost(s.err) {
+		// The connection went away before the server's answer arrived: the session has been neither confirmed nor
+		// refused. As for a request that could not be written, the state held (id, counters, stanzas awaiting
+		// their acknowledgement) is kept for the next connection.
+		return false
+	}
 	if s.err == nil {
 		switch p := packet.(type) {
 		case stanza.SMResumed:
